@@ -194,6 +194,32 @@ fn check_arrival(_seed: u64) -> i32 {
             if g != exp { return fail("arrival::Curve::from_trace", format!("{{\"trace\": {:?}, \"prefix_jobs\": {}, \"n\": {}}}", tr, pj, n), format!("min_distance = {}", g), format!("{}", exp)); }
         }
     }}
+    // extrapolation: tightest super-additive extension, prefix unchanged; the caching variant answers like the eager one
+    for a in 1..=3u64 { for b in a..=6u64 { for c in b..=12u64 { for extra in [0u64, 4] {
+        let mut dm: Vec<u64> = vec![a, b, c]; if extra > 0 { dm.push(c + extra); }
+        let orig = dm.clone();
+        let horizon = 40u64;
+        let mut reference = dm.clone();
+        while *reference.last().unwrap() < horizon {
+            let n = reference.len();
+            let nx = (0..=n / 2).map(|k| reference[k] + reference[n - k - 1]).max().unwrap();
+            reference.push(nx);
+        }
+        let mut cu = Curve::new(orig.iter().map(|x| d(*x)).collect());
+        if let Err(e) = guarded(AssertUnwindSafe(|| cu.extrapolate(d(horizon)))) { return fail("arrival::Curve::extrapolate", format!("{{\"dmin\": {:?}, \"horizon\": {}}}", orig, horizon), e, "no panic".into()); }
+        for n in 2..(reference.len() + 2) {
+            let g = ud(cu.min_distance(n));
+            if g != reference[n - 2] { return fail("arrival::Curve::extrapolate", format!("{{\"dmin\": {:?}, \"horizon\": {}, \"n\": {}}}", orig, horizon, n), format!("min_distance = {}", g), format!("{}", reference[n - 2])); }
+        }
+        // lazy == eager, for a large query first and a small one afterwards, on two clones sharing the cache
+        let lazy = arrival::ExtrapolatingCurve::new(Curve::new(orig.iter().map(|x| d(*x)).collect()));
+        let lazy2 = lazy.clone();
+        for delta in [30u64, 7, 31, 1, 12, 29] {
+            let exp = guarded(|| cu.number_arrivals(d(delta)));
+            let got = guarded(|| if delta % 2 == 0 { lazy.number_arrivals(d(delta)) } else { lazy2.number_arrivals(d(delta)) });
+            if got != exp { return fail("arrival::ExtrapolatingCurve::number_arrivals", format!("{{\"dmin\": {:?}, \"delta\": {}, \"history\": \"30,7,31,1,12,29 alternating two clones\"}}", orig, delta), format!("{:?}", got), format!("{:?} (eagerly extrapolated curve)", exp)); }
+        }
+    }}}}
     // FromIterator: running maximum of the input distances
     for a in 0..=5u64 { for b in 0..=5u64 { for c in 1..=5u64 {
         let cu: Curve = [a, b, c].iter().map(|x| d(*x)).collect();
